@@ -410,10 +410,79 @@ fn fixed_exhaustive(run: &Run) {
     );
 }
 
+/// Learned choices meet special texts: for every emoticon and every emoji name of the tables, the word part (what is
+/// left after the wrapping punctuation is split off) is learned at EACH of its candidate indices in turn, then the
+/// whole entry is typed - same context and restarted one.  The look-up that compares the learned choice with the
+/// candidates sees undecorated emoji, literal text and transliterations side by side there.
+fn learned_word_part_then_entry(run: &Run) {
+    let e = crate::model::emoji();
+    let mut entries: Vec<String> = e.emoticons.iter().map(|(k, _)| k.clone()).collect();
+    entries.extend(e.names.iter().map(|(k, _)| k.clone()).filter(|k| k.chars().any(|c| !c.is_ascii_alphanumeric())));
+    entries.retain(|k| k.chars().all(|c| keys().has_char(c)));
+    let items: Vec<(usize, String)> = entries.into_iter().enumerate().collect();
+    run.exhaustive(
+        "learned-word-part-then-table-entry",
+        &items,
+        |_| (),
+        |(i, entry), st, _| {
+            let word = crate::model::ref_split(entry, false).1;
+            if word.is_empty() || word == *entry {
+                return Ok(());
+            }
+            let opts = Opts::parse(["s", "se", "sq", "seq"][i % 4]);
+            for idx in 0..6usize {
+                let events = std::cell::RefCell::new(Vec::<Ev>::new());
+                let body = || -> Result<bool, PanicInfo> {
+                    let sb = Sandbox::new();
+                    let ctx = Ctx::new(opts, &sb)?;
+                    let mut last = None;
+                    for c in word.chars() {
+                        events.borrow_mut().push(Ev::Key { code: keys().code_for(c), m: 0, sel: 0 });
+                        last = Some(ctx.ch(c, 0)?);
+                    }
+                    let n = last.map(|r| r.choices()).unwrap_or(0);
+                    if idx >= n {
+                        return Ok(false);
+                    }
+                    events.borrow_mut().push(Ev::Commit(idx));
+                    ctx.commit(idx)?;
+                    for round in 0..2 {
+                        let cx = if round == 0 { None } else { events.borrow_mut().push(Ev::Restart); Some(Ctx::new(opts, &sb)?) };
+                        let cx = cx.as_ref().unwrap_or(&ctx);
+                        for c in entry.chars() {
+                            events.borrow_mut().push(Ev::Key { code: keys().code_for(c), m: 0, sel: 0 });
+                            cx.ch(c, 0)?;
+                        }
+                        events.borrow_mut().push(Ev::Finish);
+                        cx.finish()?;
+                    }
+                    Ok(true)
+                };
+                st.evals(1);
+                match body() {
+                    Ok(true) => st.label("entry-typed-on-a-learned-word-part"),
+                    Ok(false) => break,
+                    Err(p) => {
+                        return Err(Failure::new(
+                            panic_kind(&p),
+                            format!("word part {word:?} of table entry {entry:?} learned at index {idx}, then the entry typed ({}): {p}", opts.letters()),
+                            json!({"opts": opts.letters(), "events": events.into_inner()}),
+                        ))
+                    }
+                }
+            }
+            st.nontrivial(hash_of(&(entry, i)), || json!({"opts": opts.letters(), "entry": entry, "word_part": word}));
+            Ok(())
+        },
+    );
+    run.require_label("entry-typed-on-a-learned-word-part", 300);
+}
+
 pub fn run(run: &Run) {
     long_words(run);
     sweep(run);
     fixed_exhaustive(run);
+    learned_word_part_then_entry(run);
     let (shards, cases) = match run.tier {
         Tier::Quick => (16, 700),
         Tier::Thorough => (16, 12000),
@@ -482,17 +551,17 @@ pub fn replay(_run: &Run, case: &Value) -> Result<(), Failure> {
 
 /// Thorough tier: coverage-guided libFuzzer campaign over byte-coded histories (target `history`).
 fn fuzz_campaign(run: &Run) {
-    use crate::fuzz::{self, HISTORY_BIN};
+    use crate::fuzz::{self, history_bin};
     use std::path::{Path, PathBuf};
-    if !Path::new(HISTORY_BIN).exists() {
-        run.health.lock().unwrap().push(format!("{HISTORY_BIN} is missing (fuzz build failed?)"));
+    if !Path::new(history_bin()).exists() {
+        run.health.lock().unwrap().push(format!("{} is missing (fuzz build failed?)", history_bin()));
         return;
     }
     let root = crate::driver::scratch_root().join("c01-fuzz");
     let _ = std::fs::remove_dir_all(&root);
     let prefix = "/verif/replays/C01-fuzz-";
     let _ = std::fs::create_dir_all("/verif/replays");
-    let before: std::collections::HashSet<PathBuf> = fuzz::run_dirs_once(HISTORY_BIN, &[], prefix, &root).artifacts.into_iter().collect();
+    let before: std::collections::HashSet<PathBuf> = fuzz::run_dirs_once(history_bin(), &[], prefix, &root).artifacts.into_iter().collect();
     // two campaigns: from the committed golden histories, and from an empty corpus; a smaller one with the dictionary
     let mut total = 0u64;
     for (name, seeded, runs, data) in [("seeded", true, 20000u64, false), ("empty-corpus", false, 12000, false), ("with-dictionary", true, 1500, true)] {
@@ -506,7 +575,7 @@ fn fuzz_campaign(run: &Run) {
                 }
             }
         }
-        let out = fuzz::campaign(HISTORY_BIN, &corpus, runs, 16, run.seed, 300, prefix, &root, data);
+        let out = fuzz::campaign(history_bin(), &corpus, runs, 16, run.seed, 300, prefix, &root, data);
         total += out.executed;
         run.parts.lock().unwrap().push(json!({"part": format!("libFuzzer campaign `history` ({name}, 16 jobs)"), "runs_approximate": out.executed, "ok": out.ok}));
         let new: Vec<PathBuf> = out.artifacts.iter().filter(|a| !before.contains(*a)).cloned().collect();
@@ -530,7 +599,7 @@ fn fuzz_campaign(run: &Run) {
 }
 
 pub fn replay_artifact(path: &std::path::Path) -> Result<(), Failure> {
-    let (ok, rep) = crate::fuzz::run_one(crate::fuzz::HISTORY_BIN, path, true);
+    let (ok, rep) = crate::fuzz::run_one(crate::fuzz::history_bin(), path, true);
     if ok {
         Ok(())
     } else {
